@@ -1,6 +1,159 @@
-//! ops family `iter32` (stub — replaced when the family is implemented)
+//! ops family `iter32`: the 32-bit iterators `Iter<'_>` (iter(), range()) and `IntoIter` (into_iter(),
+//! into_range()) driven through the public API only (C03).
+//!
+//! Borrowing iterators borrow a leaked clone of the bitmap (`Iter<'static>`), so that a slot can outlive
+//! and be independent of the `bN` slot it was made from.
 use super::*;
+use roaring::bitmap::{IntoIter, Iter};
 
-pub fn handle(_st: &mut State, _toks: &[&str]) -> HResult {
-    None
+macro_rules! impl_it32 {
+    ($t:ty) => {
+        impl It32 for $t {
+            fn next(&mut self) -> Option<u32> {
+                Iterator::next(self)
+            }
+            fn next_back(&mut self) -> Option<u32> {
+                DoubleEndedIterator::next_back(self)
+            }
+            fn nth(&mut self, n: usize) -> Option<u32> {
+                Iterator::nth(self, n)
+            }
+            fn nth_back(&mut self, n: usize) -> Option<u32> {
+                DoubleEndedIterator::nth_back(self, n)
+            }
+            fn advance_to(&mut self, n: u32) {
+                <$t>::advance_to(self, n)
+            }
+            fn advance_back_to(&mut self, n: u32) {
+                <$t>::advance_back_to(self, n)
+            }
+            fn size_hint(&self) -> (usize, Option<usize>) {
+                Iterator::size_hint(self)
+            }
+            fn len(&self) -> usize {
+                ExactSizeIterator::len(self)
+            }
+            fn boxed_clone(&self) -> Box<dyn It32> {
+                Box::new(self.clone())
+            }
+            fn count(self: Box<Self>) -> usize {
+                Iterator::count(*self)
+            }
+            fn fold_fwd(self: Box<Self>) -> (u64, u64) {
+                Iterator::fold(*self, (0u64, FNV_BASIS), |(n, h), x| (n + 1, fnv_step(h, x as u64)))
+            }
+            fn fold_rev(self: Box<Self>) -> (u64, u64) {
+                DoubleEndedIterator::rfold(*self, (0u64, FNV_BASIS), |(n, h), x| (n + 1, fnv_step(h, x as u64)))
+            }
+        }
+    };
+}
+impl_it32!(Iter<'static>);
+impl_it32!(IntoIter);
+
+fn islot(t: &str) -> Option<usize> {
+    slot('i', t)
+}
+
+fn show_h((n, h): (u64, u64)) -> String {
+    format!("n={} h={:016x}", n, h)
+}
+
+pub fn handle(st: &mut State, toks: &[&str]) -> HResult {
+    macro_rules! it {
+        ($t:expr) => {
+            st.it[islot($t)?].as_mut()?
+        };
+    }
+    let ok = || Some("ok".to_string());
+    match toks {
+        ["iter", b, k] => {
+            let k = islot(k)?;
+            let leaked: &'static RoaringBitmap = Box::leak(Box::new(st.bm[slot('b', b)?].as_ref()?.clone()));
+            st.it[k] = Some(Box::new(leaked.iter()));
+            ok()
+        }
+        ["into_iter", b, k] => {
+            let k = islot(k)?;
+            let owned = st.bm[slot('b', b)?].as_ref()?.clone();
+            st.it[k] = Some(Box::new(owned.into_iter()));
+            ok()
+        }
+        ["range", b, lo, hi, k] => {
+            let src = st.bm[slot('b', b)?].as_ref()?;
+            let r = (bound::<u32>(lo)?, bound::<u32>(hi)?);
+            let k = islot(k)?;
+            let leaked: &'static RoaringBitmap = Box::leak(Box::new(src.clone()));
+            // the two documented panics propagate to the caller (printed as `panic`, ends the case)
+            st.it[k] = Some(Box::new(leaked.range(r)));
+            ok()
+        }
+        ["into_range", b, lo, hi, k] => {
+            let src = st.bm[slot('b', b)?].as_ref()?;
+            let r = (bound::<u32>(lo)?, bound::<u32>(hi)?);
+            let k = islot(k)?;
+            let owned = src.clone();
+            st.it[k] = Some(Box::new(owned.into_range(r)));
+            ok()
+        }
+        ["iclone", a, d] => {
+            let c = st.it[islot(a)?].as_ref()?.boxed_clone();
+            st.it[islot(d)?] = Some(c);
+            ok()
+        }
+        ["next", a] => Some(show_opt(it!(a).next())),
+        ["next_back", a] => Some(show_opt(it!(a).next_back())),
+        ["nth", a, n] => {
+            let n: u64 = n.parse().ok()?;
+            Some(show_opt(it!(a).nth(n as usize)))
+        }
+        ["nth_back", a, n] => {
+            let n: u64 = n.parse().ok()?;
+            Some(show_opt(it!(a).nth_back(n as usize)))
+        }
+        ["advance_to", a, v] => {
+            let v: u32 = v.parse().ok()?;
+            it!(a).advance_to(v);
+            ok()
+        }
+        ["advance_back_to", a, v] => {
+            let v: u32 = v.parse().ok()?;
+            it!(a).advance_back_to(v);
+            ok()
+        }
+        ["size_hint", a] => {
+            let (lo, hi) = it!(a).size_hint();
+            Some(format!("{},{}", lo, show_opt(hi)))
+        }
+        ["ilen", a] => Some(it!(a).len().to_string()),
+        ["count", a] => {
+            let i = st.it[islot(a)?].take()?;
+            Some(i.count().to_string())
+        }
+        ["fold", a] => {
+            let i = st.it[islot(a)?].take()?;
+            Some(show_h(i.fold_fwd()))
+        }
+        ["rfold", a] => {
+            let i = st.it[islot(a)?].take()?;
+            Some(show_h(i.fold_rev()))
+        }
+        ["drain_fwd", a] => {
+            let mut i = st.it[islot(a)?].take()?;
+            let mut acc = (0u64, FNV_BASIS);
+            while let Some(x) = i.next() {
+                acc = (acc.0 + 1, fnv_step(acc.1, x as u64));
+            }
+            Some(show_h(acc))
+        }
+        ["drain_rev", a] => {
+            let mut i = st.it[islot(a)?].take()?;
+            let mut acc = (0u64, FNV_BASIS);
+            while let Some(x) = i.next_back() {
+                acc = (acc.0 + 1, fnv_step(acc.1, x as u64));
+            }
+            Some(show_h(acc))
+        }
+        _ => None,
+    }
 }
